@@ -199,7 +199,6 @@ package engine
 
 // ---- C03 (last seen): receiving a message moves the contact's last seen on to the time of that message, whatever it was before
 //@ func (s *session) SetInput
-//@   requires s != nil
 //@   ensures [input_set] s.input == input
 //@   ensures [last_seen_follows] (!isnil(input) && s.contact != nil) ==> (s.contact.lastSeenOn != nil && instant(deref(s.contact.lastSeenOn)) == instant(input.CreatedOn()))
 //@   ensures [otherwise_untouched] (isnil(input) && s.contact != nil) ==> s.contact.lastSeenOn == old(s.contact.lastSeenOn)
